@@ -53,6 +53,7 @@ def gen_cases(tier, seed):
         shells, classes = bases.displaced_pair(rng, la, lb)
         cases.append({"shells": shells, "transform": None, "classes": classes + ["T:none", "nsh:2", "types:" + "".join(s_["t"] for s_ in shells)], "cost": 40})
     cases += bases.dup_variants("C08", seed, tier, cases, 5, ok=lambda c: c.get("transform") is None)  # one shell listed twice as the same object
+    cases += bases.argrep_variants("C08", seed, tier, cases, 5, ok=lambda c: "shells" in c and c.get("kind") in (None, "whole", "kernel", "perm", "real"))  # constructor arguments in other in-memory representations
     return cases
 
 
